@@ -368,6 +368,40 @@ theorem C18_resumable_history_total (lib : List Nat) (r r2 r3 : Nat) (ks : List 
     (upgrade lib r2 (runHistoryAny lib r f ks)).2 = (upgrade lib r3 f).2 :=
   history_any_resume ks r hwf
 
+/-- `ContentPreserved` with the per-value extras read by someone who knows the names of the original file
+(`visible`: a dataset that already sat at a `<name>.<extra>` name is somebody else's) -/
+def ContentPreservedRel (lib : List Nat) (r : Nat) (f : File) : Prop :=
+  (∀ p o, (p, PObj.old o) ∈ f.props →
+    ∃ n, lookup (upgrade lib r f).1.props p = some (.new n) ∧
+      (PObj.new n).view = (PObj.old o).view ∧
+      extraUnc (visible f.props (upgrade lib r f).1.props p) p = some (o.rows.map (·.uncertainty)) ∧
+      extraStr (visible f.props (upgrade lib r f).1.props p) p ".reference" = some (o.rows.map (·.reference)) ∧
+      extraStr (visible f.props (upgrade lib r f).1.props p) p ".filename" = some (o.rows.map (·.filename)) ∧
+      extraStr (visible f.props (upgrade lib r f).1.props p) p ".encoder" = some (o.rows.map (·.encoder)) ∧
+      extraStr (visible f.props (upgrade lib r f).1.props p) p ".checksum" = some (o.rows.map (·.checksum))) ∧
+  (∀ p n, (p, PObj.new n) ∈ f.props → lookup (upgrade lib r f).1.props p = some (.new n)) ∧
+  (upgrade lib r f).1.arrays.map arrView = f.arrays.map arrView ∧
+  (upgrade lib r f).1.other = f.other
+
+/-- The content statement at full strength, for every old file whose datasets have names — no hypothesis on name
+clashes: whenever the upgrade succeeds (and it fails only by refusing a taken `<name>.<extra>` name,
+`C18_fails_only_on_taken_name`, changing nothing, `C18_failure_is_interruption`), every compound property is
+converted with dtype, values, unit, definition and every per-value extra retrievable, every plain property, every
+array with its dimension readings and everything else is as before, and the file opens for writing. -/
+theorem C18_content_full (lib : List Nat) (r : Nat) (f : File) (hwf : WF f) (hnamed : ∀ e ∈ f.props, e.1 ≠ [])
+    (hold : upToDate lib f = false) (hok : (upgrade lib r f).2 = none) :
+    ContentPreservedRel lib r f ∧ (lib.length = 3 → openRW lib (upgrade lib r f).1 = .ok ()) := by
+  have hno := upgrade_no_old hwf hold hok
+  have hinv := inv2_runSteps (lib := lib) (r := r) hwf.1 hnamed (collect lib f) f (Inv2.refl r hwf.1)
+  obtain ⟨ha, ho⟩ := upgrade_rest_kept hwf hok
+  refine ⟨⟨fun p o hp => ?_, fun p n hp => lookup_of_mem hinv.nodup (hinv.keepNew p n hp), ha, ho⟩,
+    fun hlib => C18_writable lib r f hlib hold hok⟩
+  rcases C18_no_extra_lost lib r f hwf hnamed (collect lib f) p o hp with h | h
+  · have : p ∈ oldPaths (upgrade lib r f).1.props := mem_oldPaths_of_mem h
+    rw [hno] at this
+    cases this
+  · exact h
+
 /-- a property `a` with a reference text next to a property named `a.reference` -/
 def clash : File :=
   { version := [1, 1, 0], id := .absent,
@@ -412,6 +446,21 @@ def foreign : File :=
     arrays := [], other := "" }
 
 example : ¬ NoNameTaken foreign ∧ WF foreign ∧ (∀ e ∈ foreign.props, e.1 ≠ []) := by decide +kernel
+
+theorem foreign_collect : collect [1, 2, 1] foreign =
+    [.addId, .prop ["s", "properties", "a"], .prop ["s", "properties", "a.reference"], .bump] := by
+  have h1 : propTasks foreign = [["s", "properties", "a"], ["s", "properties", "a.reference"]] :=
+    mergeSort_eq_of (by decide +kernel) (by decide +kernel)
+  rw [collect_old (by decide +kernel)]
+  unfold preSteps
+  rw [h1]
+  decide +kernel
+
+/-- the hypotheses of `C18_content_full` are met by `foreign`, which `C18_content_partial` does not cover -/
+example : (upgrade [1, 2, 1] 1 foreign).2 = none ∧ upToDate [1, 2, 1] foreign = false ∧ ¬ Clean foreign := by
+  unfold upgrade
+  rw [foreign_collect]
+  decide +kernel
 
 example :
     let g := (runSteps [1, 2, 1] 1 foreign
